@@ -140,6 +140,7 @@ func main() {
 	class := flag.String("size", "mixed", "payload size class: tiny|boundary|large|mixed")
 	ops := flag.Int("ops", 6, "operations per goroutine")
 	seed := flag.Uint64("seed", 1, "seed")
+	fresh := flag.Int("fresh", 8, "trials in which fresh values are first used by all goroutines at once")
 	rsaPEM := flag.String("rsa", "", "PKCS#1 PEM file with a 2048-bit RSA key (generated if empty)")
 	flag.Parse()
 	if *procs > 0 {
@@ -344,6 +345,72 @@ func main() {
 	wg.Wait()
 	if firstErr != "" {
 		fail("%s", firstErr)
+	}
+	// ---- fresh values: the goroutines' FIRST operations on a value run concurrently (no solo warm-up),
+	// so that anything a value initialises lazily on first use is initialised under contention ----
+	for trial := 0; trial < *fresh; trial++ {
+		fx, err := age.ParseX25519Identity(xid.String())
+		if err != nil {
+			fail("fresh: %v", err)
+		}
+		fsr, _ := age.NewScryptRecipient("correct horse battery staple")
+		fsr.SetWorkFactor(10)
+		fsi, _ := age.NewScryptIdentity("correct horse battery staple")
+		fedR, err := agessh.NewEd25519Recipient(edSSH)
+		if err != nil {
+			fail("fresh: %v", err)
+		}
+		fedI, err := agessh.NewEd25519Identity(edPriv)
+		if err != nil {
+			fail("fresh: %v", err)
+		}
+		frsaR, err := agessh.NewRSARecipient(rsaSSH)
+		if err != nil {
+			fail("fresh: %v", err)
+		}
+		frsaI, err := agessh.NewRSAIdentity(rsaKey)
+		if err != nil {
+			fail("fresh: %v", err)
+		}
+		fp := []pair{{"x25519", fx.Recipient(), fx}, {"scrypt", fsr, fsi}, {"ssh-ed25519", fedR, fedI}, {"ssh-rsa", frsaR, frsaI}}
+		k := trial % len(fp)
+		var fwg sync.WaitGroup
+		fstart := make(chan struct{})
+		for t := 0; t < *g; t++ {
+			fwg.Add(1)
+			pt := master.bytes(1 + master.intn(64))
+			go func(t int, pt []byte) {
+				defer fwg.Done()
+				defer func() {
+					if p := recover(); p != nil {
+						report(fmt.Sprintf("fresh values: goroutine %d panicked: %v", t, p))
+					}
+				}()
+				<-fstart
+				ct, err := encrypt(pt, fp[k].r)
+				if err != nil {
+					report(fmt.Sprintf("fresh %s recipient, first use by %d goroutines at once: encrypt failed: %v", fp[k].name, *g, err))
+					return
+				}
+				// the warmed-up identity decides whether the file is right; the fresh one is used concurrently too
+				out, err := decrypt(ct, pairs[k].i)
+				if err != nil || !bytes.Equal(out, pt) {
+					report(fmt.Sprintf("fresh %s recipient, first use by %d goroutines at once: the file it wrote does not decrypt: err=%v", fp[k].name, *g, err))
+					return
+				}
+				out, err = decrypt(fixedFiles[k].ct, fp[k].i)
+				if err != nil || !bytes.Equal(out, fixedFiles[k].plain) {
+					report(fmt.Sprintf("fresh %s identity, first use by %d goroutines at once: fixed file: err=%v", fp[k].name, *g, err))
+					return
+				}
+				atomic.AddInt64(&total, 1)
+			}(t, pt)
+		}
+		close(fstart)
+		fwg.Wait()
+		if firstErr != "" {
+			fail("%s", firstErr)
+		}
 	}
 	// the shared values still behave as before
 	for _, f := range fixedFiles {
